@@ -1,5 +1,5 @@
 """Record PySpark 3.5.9's column names for C10 programs (run manually; needs a JVM, ~10 min):
-   PYSPARK_PYTHON=/venv/bin/python PYTHONPATH=/verif /venv/bin/python oracle/record_c10.py [n_programs]
+   PYSPARK_PYTHON=/venv/bin/python PYTHONPATH=/verif /venv/bin/python oracle/record_c10.py [n_programs | --exotic-only]
 Per step: df.columns and the schema's field names; at the last step also Row.__fields__ and toPandas().columns.
 The registered check only reads oracle/c10_pyspark.jsonl (and re-runs the same programs on sqlframe)."""
 import json, os, random, sys, warnings
@@ -9,11 +9,35 @@ from checks import c10
 from pyspark.sql import SparkSession
 import pyspark.sql.functions as F
 
-N = int(sys.argv[1]) if len(sys.argv) > 1 else 400
+N = int(sys.argv[1]) if len(sys.argv) > 1 and sys.argv[1].isdigit() else 400
 spark = (SparkSession.builder.master("local[1]").config("spark.ui.enabled", "false")
          .config("spark.sql.shuffle.partitions", "1").getOrCreate())
 spark.sparkContext.setLogLevel("ERROR")
 warnings.simplefilter("ignore")
+def record_exotic():
+    """names outside the Coq model's identifier syntax: PySpark's answer for a fixed list (oracle/c10_pyspark_exotic.jsonl)"""
+    with open("/verif/oracle/c10_pyspark_exotic.jsonl", "w") as f:
+        for p in c10.EXOTIC:
+            steps = []
+            try:
+                df = c10.make_df(spark, p["names"])
+                steps.append({"columns": list(df.columns)})
+                for op in p["ops"]:
+                    df = c10.apply_op(spark, F, df, op)
+                    steps.append({"columns": list(df.columns)})
+                rows = df.collect()
+                steps[-1]["fields"] = list(rows[0].__fields__)
+            except Exception as ex:                   # noqa: BLE001
+                steps.append({"error": f"{type(ex).__name__}: {str(ex)[:200]}"})
+            f.write(json.dumps({"tag": p["tag"], "names": p["names"], "ops": p["ops"], "steps": steps}, ensure_ascii=False) + "\n")
+            print("exotic", p["names"], p["ops"], steps[-1])
+
+
+if "--exotic-only" in sys.argv:
+    record_exotic()
+    spark.stop()
+    sys.exit(0)
+
 progs = list(c10.CORPUS)
 for seed in (1010, 1011):
     g = c10.Gen(random.Random(seed))
@@ -40,4 +64,5 @@ for p in progs:
         print(n, "programs,", nerr, "with an error", flush=True)
 out.close()
 print("recorded", n, "programs;", nerr, "ended in a PySpark error")
+record_exotic()
 spark.stop()
